@@ -1399,7 +1399,11 @@ where
                             PollResponse::DoNothing => {
                                 // KEEP_ALIVE is set in send_response_inner if client allows it
                                 // FINISHED is set after writing last chunk of response
-                                if inner.flags.contains(Flags::KEEP_ALIVE | Flags::FINISHED) {
+                                // (a timer that is already running keeps its deadline: a
+                                // poll that brings no data must not extend the idle period)
+                                if inner.flags.contains(Flags::KEEP_ALIVE | Flags::FINISHED)
+                                    && !matches!(inner.ka_timer, TimerState::Active { .. })
+                                {
                                     if let Some(timer) = inner.config.keep_alive_deadline() {
                                         inner.as_mut().project().ka_timer.set_and_init(
                                             cx,
